@@ -13,10 +13,14 @@ RULE = ("BFS over histories of {callback(fresh value), errback(exception instanc
         "(outer canceller, inner canceller) in {none, fires callback, fires errback, does nothing, raises}^2.  "
         "Every transition runs on the real objects and is compared with a reference state machine: exception "
         "raised by the call (AlreadyCalledError or none), canceller call counts, observer invocations with "
-        "their inputs, and each Deferred's result.  non-trivial = distinct canonical states after a cancel, a "
+        "their inputs, and each Deferred's result.  One extra family (3 canceller configurations) also has "
+        "pause(d_i) / unpause(d_i) (unpause only after the program's own pause, <=2 pause calls per history): the "
+        "reference holds back a paused Deferred's callbacks, hands a result to a paused waiter without resuming "
+        "it, and forwards cancel() of a fired Deferred only while its result IS the Deferred it waits on.  "
+        "non-trivial = distinct canonical states after a cancel, a "
         "late (second) result, or while a Deferred was waiting on another")
-BOUNDS = {"quick": "25 canceller configurations with a plain inner Deferred + 10 each with a user-subclass inner and a DeferredList([d]) inner + 9 with defer.setDebugging(True), <=3 Deferreds, <=2 pending callbacks per Deferred, depth 8",
-          "thorough": "the same 54 configurations (the 9 debugging ones at the quick bounds), <=4 Deferreds, <=2 pending callbacks per Deferred, depth 10"}
+BOUNDS = {"quick": "25 canceller configurations with a plain inner Deferred + 10 each with a user-subclass inner and a DeferredList([d]) inner + 9 with defer.setDebugging(True), <=3 Deferreds, <=2 pending callbacks per Deferred, depth 8; + 3 configurations (none,none) (noop,noop) (none,cb) with pause/unpause, <=2 pauses per history, depth 7",
+          "thorough": "the same 54 configurations (the 9 debugging ones at the quick bounds), <=4 Deferreds, <=2 pending callbacks per Deferred, depth 10; the 3 pause configurations with <=4 Deferreds, depth 8"}
 ASSUMPTIONS = [
     "raising canceller: the statement is silent about the outcome; judged only (i) every cancel() that reaches "
     "an unfired Deferred built with a canceller calls that canceller exactly once (so again on a second cancel() "
@@ -25,16 +29,20 @@ ASSUMPTIONS = [
     "unchanged the reference stays exact; once it does not, the search continues over {callback, errback, "
     "cancel} judging only (i) and (ii) from the real objects' own called/result state; whether cancel() "
     "propagates the canceller's exception is not checked",
-    "cancellers that fire do so synchronously with the Deferred they are given; no pause/unpause (C01)",
+    "cancellers that fire do so synchronously with the Deferred they are given; pause/unpause only in the "
+    "pause family (balanced: unpause only while the program's own pause count is > 0; chaining itself is C01): "
+    "a fired Deferred that was handed a plain result while paused is NOT waiting any more, so cancel() on it "
+    "has no effect even though it has not resumed its callbacks yet",
     "canonical state = per Deferred (called, result class, pending callback kinds incl. continuations, "
-    "_suppressAlreadyCalled, canceller present) of the real object plus the reference state; tokens are fresh "
+    "_suppressAlreadyCalled, canceller present, paused / own pause count, pauses left) of the real object plus the reference state; tokens are fresh "
     "and verified equal in that state, so they are dropped",
 ]
-MIN = {"quick": {"states": 32000, "nontrivial": 29500, "outcomes": 20, "transitions": 460000},
+MIN = {"quick": {"states": 60400, "nontrivial": 58000, "outcomes": 30, "transitions": 694000},
        "thorough": {"states": 250000, "nontrivial": 240000, "outcomes": 13, "transitions": 3000000}}
 LEVEL_TEXT = ("every history within the bound is executed on real Deferreds and compared after each call with a "
               "reference state machine of the documented one-result / cancellation rules")
-LEVEL_NOTE = "raising cancellers only partly specified; no pauses; cancellers fire synchronously or not at all"
+LEVEL_NOTE = ("raising cancellers only partly specified; pauses only in one 3-configuration family (<=2 per history); "
+              "cancellers fire synchronously or not at all")
 
 KINDS = ["none", "cb", "eb", "noop", "raise"]
 TIER = {"quick": dict(depth=8, maxd=3, maxpending=2), "thorough": dict(depth=10, maxd=4, maxpending=2)}
@@ -50,7 +58,7 @@ class CancellerBoom(Exception):
 
 
 class MD:
-    __slots__ = ("kind", "fired", "result", "wait", "pending", "swallow", "ccount", "link")
+    __slots__ = ("kind", "fired", "result", "wait", "pending", "swallow", "ccount", "link", "upause")
 
     def __init__(self, kind, link=None):
         self.kind = kind        # canceller kind, or "dl": a DeferredList([d_link]) (its cancel() cancels d_link)
@@ -61,6 +69,7 @@ class MD:
         self.pending = []       # ("obs", cid) | ("inner", cid, j) | ("cont", waiter)
         self.swallow = 0
         self.ccount = 0
+        self.upause = 0         # the program's own unmatched pause() calls (pause family only)
 
 
 _logging_off = [False]
@@ -90,9 +99,11 @@ def _subclass():
 
 
 class St:
-    def __init__(self, k0, k1, tier="quick", shape="plain"):
+    def __init__(self, k0, k1, tier="quick", shape="plain", pauses=0):
         _quiet()
         self.k0, self.k1 = k0, k1
+        self.pauses = pauses    # how many pause() calls a history may contain (0: no pause/unpause in the alphabet)
+        self.npause = 0
         self.shape = shape      # what the inner Deferred returned by a callback is: plain / sub / dlist
         self.maxd, self.maxpending = TIER[tier]["maxd"], TIER[tier]["maxpending"]
         self.d = []
@@ -176,14 +187,17 @@ def classify(st, r):
 
 def m_run(st, i):
     D = st.m[i]
-    while D.pending and D.wait is None:
+    while D.pending and D.wait is None and D.upause == 0:     # a paused Deferred does not run callbacks
         e = D.pending.pop(0)
         if e[0] == "cont":
             W = st.m[e[1]]
             W.result = D.result
             D.result = ("ok", None)
             W.wait = None
-            st.flags.add("waiter-resumed-" + W.result[0])
+            if W.upause:
+                st.flags.add("result-handed-to-paused-waiter")
+            else:
+                st.flags.add("waiter-resumed-" + W.result[0])
             m_run(st, e[1])
             continue
         if e[0] == "dl":
@@ -195,7 +209,7 @@ def m_run(st, i):
         if e[0] == "inner":
             j = e[2]
             E = st.m[j]
-            if E.fired and E.wait is None:
+            if E.fired and E.wait is None and E.upause == 0:
                 D.result = E.result
                 E.result = ("ok", None)
                 st.flags.add("inner-already-fired")
@@ -243,9 +257,12 @@ def m_cancel(st, i):
         if not D.fired:
             m_fire(st, i, ("fail", "cancelled"))
     elif D.wait is not None:
+        # fired and CURRENTLY waiting (its result is that Deferred): cancel that one
         st.flags.add("cancel-forwarded")
         return m_cancel(st, D.wait)
     else:
+        if D.upause:
+            st.flags.add("cancel-fired-paused-noop")
         st.flags.add("cancel-fired-noop")
     return None
 
@@ -318,6 +335,17 @@ def apply(st, ev):
         st.cancel_hit_unfired = not st.m[target].fired
         expect = m_cancel(st, i)
         call = d.cancel
+    elif op == "pause":
+        M.upause += 1
+        st.npause += 1
+        st.flags.add("pause-" + ("waiting" if M.wait is not None else "fired" if M.fired else "unfired"))
+        call = d.pause
+    elif op == "unpause":
+        M.upause -= 1
+        if M.fired and M.upause == 0:
+            st.flags.add("unpause-resumes")
+            m_run(st, i)
+        call = d.unpause
     elif op == "obs":
         cid = st.ncid
         st.ncid += 1
@@ -453,8 +481,13 @@ def enabled(st):
         if st.m[i].kind != "dl":        # a DeferredList is fired by its member only
             evs.extend((f, i) for f in FIRE_OPS)
         evs.append(("cancel", i))
+        if st.pauses:
+            if st.npause < st.pauses:
+                evs.append(("pause", i))
+            if st.m[i].upause > 0:
+                evs.append(("unpause", i))
         np_ = sum(1 for e in st.m[i].pending if e[0] != "cont")
-        runs_now = st.m[i].fired and st.m[i].wait is None
+        runs_now = st.m[i].fired and st.m[i].wait is None and st.m[i].upause == 0
         if runs_now or np_ < st.maxpending:
             evs.append(("obs", i))
             if len(st.d) + (2 if st.shape == "dlist" else 1) <= st.maxd:
@@ -547,21 +580,25 @@ def canon(st):
         mrs = "d%d" % mr[1] if mr is not None and mr[0] == "def" else _cls(mr)
         mp = ",".join("C%d" % e[1] if e[0] == "cont" else e[0][0] + (str(e[2]) if e[0] in ("inner", "dl") else "")
                       for e in M.pending)
-        rows.append("%d.%s.%s.%d.%d|%d.%s.%s.%d" % (
+        rows.append("%d.%s.%s.%d.%d.%d|%d.%s.%s.%d.%d" % (
             d.called, rcs, ",".join(parts), bool(getattr(d, "_suppressAlreadyCalled", False)),
-            getattr(d, "_canceller", None) is not None, M.fired, mrs, mp, M.swallow))
+            getattr(d, "_canceller", None) is not None, getattr(d, "paused", 0), M.fired, mrs, mp, M.swallow,
+            M.upause))
     # an inner Deferred referenced by a not-yet-run callback: which one matters
     refs = []
     for i, d in enumerate(st.d):
         for e in st.m[i].pending:
             if e[0] == "inner":
                 refs.append((i, e[2]))
-    return (st.open, tuple(rows), tuple(refs))
+    return (st.open, st.pauses - st.npause, tuple(rows), tuple(refs))
 
 
 # ---------------------------------------------------------------- driver
 
 SHAPES = ["plain", "sub", "dlist"]
+PAUSE_CONFIGS = [("none", "none"), ("noop", "noop"), ("none", "cb")]
+PAUSES_PER_HISTORY = 2
+PAUSE_DEPTH = 7
 
 
 def shards(tier, seed):
@@ -571,6 +608,9 @@ def shards(tier, seed):
     # the same rules hold with defer.setDebugging(True) (creation / invocation stacks recorded, extra branches
     # in callback()/errback()/_startRunCallbacks)
     out += [[a, b, "plain", "debug"] for a in ("none", "noop", "cb") for b in ("none", "noop", "eb")]
+    # pause()/unpause() in the alphabet: a fired Deferred can hold a plain result without having resumed, so
+    # "waiting on another Deferred" must mean "its result is that Deferred now", not "it once waited"
+    out += [[a, b, "plain", "pause"] for a, b in PAUSE_CONFIGS]
     return out
 
 
@@ -586,11 +626,14 @@ def run_shard(shard, tier, seed):
 
 def _run_shard(shard, tier, seed, debug):
     k0, k1, shape = shard[:3]
+    pauses = PAUSES_PER_HISTORY if len(shard) > 3 and shard[3] == "pause" else 0
     if debug:
         tier = "quick"      # recording stacks makes every Deferred ~20x dearer: debug configurations keep the quick bounds
     depth = TIER[tier]["depth"]
+    if pauses:
+        depth = PAUSE_DEPTH + (1 if tier == "thorough" else 0)
     stats = Stats()
-    extra = {"config": [k0, k1, shape] + (["debug"] if debug else []), "tier": tier}
+    extra = {"config": [k0, k1, shape] + (["debug"] if debug else ["pause"] if pauses else []), "tier": tier}
 
     def inv(st, hist):
         for f in st.flags:
@@ -603,9 +646,9 @@ def _run_shard(shard, tier, seed, debug):
     def on_state(st, hist):
         nt = st.flags - {"waiter-resumed-ok", "waiter-resumed-fail", "inner-already-fired"}
         if nt:
-            stats.nt((k0, k1, shape, debug, canon(st)))
+            stats.nt((k0, k1, shape, debug, pauses, canon(st)))
 
-    res = bfs(lambda: St(k0, k1, tier, shape), apply, enabled, canon, inv, depth, on_state=on_state)
+    res = bfs(lambda: St(k0, k1, tier, shape, pauses), apply, enabled, canon, inv, depth, on_state=on_state)
     res.violations = []
     stats.add_bfs(res, extra)
     stats.samples = [{"config": extra["config"], "history": h} for h in res.samples[:1]]
@@ -618,7 +661,8 @@ def replay(w):
     from twisted.internet import defer
     defer.setDebugging(len(w["config"]) > 3 and w["config"][3] == "debug")
     try:
-        st = St(k0, k1, w.get("tier", "quick"), shape)
+        pauses = PAUSES_PER_HISTORY if len(w["config"]) > 3 and w["config"][3] == "pause" else 0
+        st = St(k0, k1, w.get("tier", "quick"), shape, pauses)
         for ev in w["history"]:
             apply(st, tuple(ev))
             bad = invariant(st, None)
